@@ -108,6 +108,23 @@ Definition apply_spread_args (op : node) : bool :=
   | _ => false
   end.
 
+(** [F.apply(T, X)] where [X] is neither an array literal nor a spread: the call's arguments are the ELEMENTS of [X],
+    which the hook cannot be handed without spreading [X]; passing [X] itself is a different value. *)
+Definition apply_unexpanded_args (op : node) : bool :=
+  match op with
+  | Node (K KCall _ _) [_; Node (K KMember _ _) [_; prop]; Node Lst (this :: second :: _); _] =>
+      match ident_name_sym prop with
+      | Some "apply" =>
+          negb (arg_is_spread this) && negb (arg_is_spread second) &&
+          match second with
+          | Node Obj [Node Nul []; Node (K KArray _ _) _] => false
+          | _ => true
+          end
+      | _ => false
+      end
+  | _ => false
+  end.
+
 (** Each operand is evaluated once, for itself: two operands never share an injected temporary (that
     would pass the value of one evaluation in the place of another one, which was omitted). *)
 Fixpoint has_dup_str (l : list string) : bool :=
@@ -130,7 +147,9 @@ Fixpoint shape_issues (vp : string) (n : node) : list string :=
            (if arg_is_spread a0 then ["spread-result"] else []) ++
            (if has_dup_str (operand_temps vp rest) then ["operand-temporary-shared"] else []) ++
            match expected_of_operation op with
-           | Some ex => if apply_spread_args op then ["apply-spread-args"] else match_args vp ex rest
+           | Some ex => if apply_spread_args op then ["apply-spread-args"]
+                        else if apply_unexpanded_args op then ["apply-args-not-expanded"]
+                        else match_args vp ex rest
            | None => ["unknown-operation"]
            end
        | None => ["no-first-argument"]
